@@ -1,0 +1,131 @@
+// SPDX-FileCopyrightText: 2020 - 2025 SAP SE
+//
+// SPDX-License-Identifier: Apache-2.0
+
+//go:build verif
+
+package tds
+
+import (
+	"context"
+	"io"
+	"sync"
+)
+
+// This file is only compiled with the build tag 'verif'. It gives
+// verification harnesses access to unexported state and allows
+// constructing a Conn on top of an arbitrary transport. It adds no
+// behaviour to the regular build.
+
+// VerifNewConn returns a Conn using rwc as transport, initialized the
+// same way NewConn initializes a dialed connection. The reader
+// goroutine is only started if startReader is true.
+func VerifNewConn(ctx context.Context, rwc io.ReadWriteCloser, info *Info, startReader bool) (*Conn, error) {
+	tds := &Conn{
+		info:       info,
+		conn:       rwc,
+		packetSize: 512,
+	}
+
+	if err := tds.setCapabilities(); err != nil {
+		return nil, err
+	}
+
+	tds.odce = aes_256_cbc
+
+	tds.ctx, tds.ctxCancel = context.WithCancel(ctx)
+	tds.tdsChannelCurFreeId = uint32(0)
+	tds.tdsChannels = make(map[int]*Channel)
+	tds.tdsChannelsLock = &sync.RWMutex{}
+	tds.errCh = make(chan error, 10)
+
+	if startReader {
+		go tds.ReadFrom()
+	}
+
+	return tds, nil
+}
+
+// VerifSetPacketSize overrides the negotiated packet size.
+func (tds *Conn) VerifSetPacketSize(packetSize int) {
+	tds.packetSize = packetSize
+}
+
+// VerifChannelIds returns the ids of the registered channels.
+func (tds *Conn) VerifChannelIds() []int {
+	tds.tdsChannelsLock.RLock()
+	defer tds.tdsChannelsLock.RUnlock()
+
+	ids := make([]int, 0, len(tds.tdsChannels))
+	for id := range tds.tdsChannels {
+		ids = append(ids, id)
+	}
+	return ids
+}
+
+// VerifErrCh returns the error queue of the connection.
+func (tds *Conn) VerifErrCh() chan error {
+	return tds.errCh
+}
+
+// VerifChannelId returns the id of the channel.
+func (tdsChan *Channel) VerifChannelId() int {
+	return tdsChan.channelId
+}
+
+// VerifQueues returns the receive and transmit queues of the channel.
+func (tdsChan *Channel) VerifQueues() (*PacketQueue, *PacketQueue) {
+	return tdsChan.queueRx, tdsChan.queueTx
+}
+
+// VerifLastPkgRx returns the last package delivered by the channel.
+func (tdsChan *Channel) VerifLastPkgRx() Package {
+	return tdsChan.lastPkgRx
+}
+
+// VerifQueued returns the number of packages and errors waiting in
+// the channel.
+func (tdsChan *Channel) VerifQueued() (int, int) {
+	return len(tdsChan.packageCh), len(tdsChan.errCh)
+}
+
+// VerifState returns the internal state of the queue: the length of
+// the data portion and the header length of every packet, the position
+// and the end-of-message marker.
+func (queue *PacketQueue) VerifState() ([]int, []int, int, int, bool) {
+	dataLens := make([]int, len(queue.queue))
+	headerLens := make([]int, len(queue.queue))
+	for i, packet := range queue.queue {
+		dataLens[i] = len(packet.Data)
+		headerLens[i] = int(packet.Header.Length)
+	}
+	return dataLens, headerLens, queue.indexPacket, queue.indexData, queue.recvEOM
+}
+
+// VerifPackets returns the packets in the queue.
+func (queue *PacketQueue) VerifPackets() []*Packet {
+	return queue.queue
+}
+
+// VerifPack returns the bytes of the login record.
+func (config *LoginConfig) VerifPack() ([]byte, error) {
+	pkg, err := config.pack()
+	if err != nil {
+		return nil, err
+	}
+	return pkg.(*TokenlessPackage).Data.Bytes(), nil
+}
+
+// VerifRsaEncrypt exposes rsaEncrypt.
+func VerifRsaEncrypt(pemPubKey, nonce, password []byte) ([]byte, error) {
+	return rsaEncrypt(pemPubKey, nonce, password)
+}
+
+// VerifParseValueMask exposes parseValueMask.
+func VerifParseValueMask(bs []byte) []bool {
+	vm := parseValueMask(bs)
+	if vm == nil {
+		return nil
+	}
+	return vm.capabilities
+}
